@@ -660,3 +660,21 @@ func (q *Q) ListRemoval(rule, key string, f *F, list, lock, badmsg string) {
 	}
 	q.r.Check(len(hit) == 1 && len(st) == 1, rule, key, st.Pos(q.p), list+" = append("+list+"[:i], "+list+"[i+1:]...) for the i whose element is the departing one, under the lock", badmsg+": "+argsOf(st)+" "+guardsOf(st))
 }
+
+// TokenReleased: f sets the in-progress flag `field` (a bool field of the receiver) and
+// must clear it again on EVERY path to a return: the flag makes concurrent/later calls
+// fail fast (ErrProtoState), so a path that forgets to clear it — a timeout or close
+// return — wedges the object for good.
+func (q *Q) TokenReleased(rule, key string, f *F, field string) {
+	if !f.OK() {
+		return
+	}
+	set := f.Ev("store", field).Arg(0, "true")
+	clr := f.Ev("store", field).Arg(0, "false")
+	if len(set) != 1 || len(clr) == 0 {
+		q.r.Bad(rule, key, f.Pos(), "ANCHOR-MISSING: expected one `"+field+" = true` and a `"+field+" = false` in "+f.Name)
+		return
+	}
+	ok, where := q.mustPass(set[0].In, clr)
+	q.r.Check(ok, rule, key, set.Pos(q.p), field+" is cleared on every path from where it is set to a return", "a path from `"+field+" = true` reaches the return at "+where+" without clearing it: after that return (a receive timeout or close) every later call sees the flag still set and fails immediately instead of waiting")
+}
